@@ -1,9 +1,188 @@
-(* C39 — property theorems only. *)
-From Coq Require Import List NArith Arith Bool.
+(* C39 — property theorems only.
+
+   reconcile tf pools blocks : the controller's reconcile over ALL pools (Model.v); tf = false is the
+   pinned order of the Spec.Disabled / DeletionTimestamp tests, tf = true the repaired order.
+   post_of tf pools blocks  : the pools as left in the datastore by that reconcile.
+   after post f p           : f evaluated on the record that pool p has in post.
+   Pools, blocks, conditions, finalizers, creation times and names are arbitrary throughout;
+   the only standing hypothesis is that pool names are distinct (they are resource names). *)
+From Coq Require Import List NArith Arith Bool Sorting.Permutation Sorting.Sorted.
 From Verif.Common Require Import Prefix.
-From Verif.C39 Require Import Model Spec.
+From Verif.C39 Require Import Model Spec Order Proofs Reconcile History.
 Import ListNotations.
 
-Theorem c39_gc_keeps_protected : forall ps p, In p ps -> gone p = false -> In p (gc ps).
-Proof. intros ps p H G. unfold gc. apply filter_In. split; auto. rewrite G. reflexivity. Qed.
-Print Assumptions c39_gc_keeps_protected.
+(* (1) After a reconcile no two allocatable pools overlap. *)
+Theorem c39_no_two_allocatable_overlap : forall tf pools blocks p q,
+  In p (post_of tf pools blocks) -> In q (post_of tf pools blocks) ->
+  p_name p <> p_name q -> allocatable p = true -> allocatable q = true ->
+  pools_overlap p q = false.
+Proof. exact no_two_allocatable_overlap. Qed.
+Print Assumptions c39_no_two_allocatable_overlap.
+
+(* (2) A pool that was already allocatable and in service stays allocatable (and carries the
+   finalizer) whatever newer / not yet allocatable pools overlap it, provided the allocatable
+   pools did not overlap each other to begin with (which (1) and c39_history_invariant guarantee
+   in every reachable state). *)
+Theorem c39_incumbent_kept : forall tf pools blocks,
+  NoDup (map p_name pools) ->
+  (forall a b, In a pools -> In b pools -> p_name a <> p_name b ->
+               incumbent a = true -> incumbent b = true -> pools_overlap a b = false) ->
+  forall p, In p pools -> incumbent p = true ->
+    after (post_of tf pools blocks) allocatable p = true /\ after (post_of tf pools blocks) p_fin p = true.
+Proof. exact incumbent_kept. Qed.
+Print Assumptions c39_incumbent_kept.
+
+(* (2) without any hypothesis on the starting configuration: an incumbent can lose the status
+   only to another incumbent that overlaps it and keeps the status. *)
+Theorem c39_incumbent_only_loses_to_incumbent : forall tf pools blocks p,
+  NoDup (map p_name pools) -> In p pools -> incumbent p = true ->
+  after (post_of tf pools blocks) allocatable p = true
+  \/ exists q, In q pools /\ p_name q <> p_name p /\ incumbent q = true /\ pools_overlap p q = true
+               /\ after (post_of tf pools blocks) allocatable q = true.
+Proof. exact incumbent_only_loses_to_incumbent. Qed.
+Print Assumptions c39_incumbent_only_loses_to_incumbent.
+
+(* (3) While a terminating pool T is listed, a pool overlapping it is allocatable after the
+   reconcile only if it was allocatable (and in service) before.  For the pinned order
+   (tf = false) this needs T not to be administratively disabled; see the refutation below. *)
+Theorem c39_terminating_masks : forall tf pools blocks T p,
+  NoDup (map p_name pools) -> In T pools -> In p pools -> p_name p <> p_name T ->
+  p_deleting T = true -> (tf = true \/ p_disabled T = false) ->
+  pools_overlap T p = true ->
+  after (post_of tf pools blocks) allocatable p = true ->
+  allocatable p = true /\ p_deleting p = false.
+Proof. exact terminating_masks. Qed.
+Print Assumptions c39_terminating_masks.
+
+(* (3) is FALSE of the pinned order for a pool that is both disabled and terminating: pool a
+   (10.0.0.0/24, terminating, finalizer held, block 10.0.0.64/26 present, spec.disabled set after
+   the delete request) no longer masks pool b (10.0.0.0/25), which becomes allocatable while a
+   is still there; the specification oracle rejects that reconcile.  Replayed on the real
+   controller by driver scenario 0 (known finding disabled-terminating-does-not-mask). *)
+Theorem c39_terminating_masks_refuted_pinned :
+  exists pools blocks T p,
+    NoDup (map p_name pools) /\ In T pools /\ In p pools /\ p_name p <> p_name T /\
+    p_deleting T = true /\ p_fin T = true /\ has_block T blocks = true /\ pools_overlap T p = true /\
+    allocatable p = false /\
+    after (post_of false pools blocks) still_there T = true /\
+    after (post_of false pools blocks) allocatable p = true /\
+    ok_round pools blocks (post_of false pools blocks) = false.
+Proof. exact terminating_masks_refuted_pinned. Qed.
+Print Assumptions c39_terminating_masks_refuted_pinned.
+
+(* (4) A terminating pool that carries the controller's finalizer and still has an address
+   block inside its CIDR keeps the finalizer, so the API server cannot complete the deletion. *)
+Theorem c39_no_delete_with_blocks : forall tf pools blocks p,
+  NoDup (map p_name pools) -> In p pools ->
+  p_deleting p = true -> p_fin p = true -> has_block p blocks = true ->
+  after (post_of tf pools blocks) p_fin p = true /\ after (post_of tf pools blocks) still_there p = true.
+Proof. exact no_delete_with_blocks. Qed.
+Print Assumptions c39_no_delete_with_blocks.
+
+(* ... and every pool that is allocatable and in service after a reconcile carries the finalizer,
+   so a later delete request cannot complete at once. *)
+Theorem c39_allocatable_has_finalizer : forall tf pools blocks p,
+  NoDup (map p_name pools) -> In p pools ->
+  after (post_of tf pools blocks) (fun q => allocatable q && negb (p_deleting q)) p = true ->
+  after (post_of tf pools blocks) p_fin p = true.
+Proof. exact allocatable_has_finalizer. Qed.
+Print Assumptions c39_allocatable_has_finalizer.
+
+(* The specification oracle of Spec.v (the one applied to the implementation's observations)
+   accepts every reconcile of the model: always for the repaired order, and for the pinned order
+   whenever no pool is both disabled and terminating. *)
+Theorem c39_model_meets_spec : forall tf pools blocks, NoDup (map p_name pools) ->
+  (tf = true \/ forall p, In p pools -> p_deleting p = true -> p_disabled p = false) ->
+  ok_round pools blocks (ro_pools (reconcile tf pools blocks)) = true.
+Proof. exact model_meets_spec. Qed.
+Print Assumptions c39_model_meets_spec.
+
+(* Parts (1), (2), (4) of the oracle hold of the pinned order unconditionally. *)
+Theorem c39_model_meets_spec_but_masking : forall tf pools blocks, NoDup (map p_name pools) ->
+  let post := ro_pools (reconcile tf pools blocks) in
+  ok_same_pools pools post && ok_no_overlap post && ok_incumbent pools post && ok_finalizers pools blocks post = true.
+Proof. exact model_meets_spec_but_masking. Qed.
+Print Assumptions c39_model_meets_spec_but_masking.
+
+(* ---- histories: any interleaving of create / disable / enable / delete request / foreign
+   finalizer removed / block appears / block gone / reconcile, from the empty cluster or from
+   any state satisfying Inv (distinct names, allocatable pools pairwise disjoint, allocatable
+   pools carry the finalizer). *)
+Theorem c39_history_invariant : forall tf hs s, Inv s -> Forall hop_wf hs -> Inv (run_history tf s hs).
+Proof. exact history_invariant. Qed.
+Print Assumptions c39_history_invariant.
+
+Theorem c39_history_no_two_allocatable_overlap : forall tf hs blocks0 a b,
+  Forall hop_wf hs ->
+  let s := run_history tf (mkState [] blocks0) hs in
+  In a (st_pools s) -> In b (st_pools s) -> p_name a <> p_name b ->
+  allocatable a = true -> allocatable b = true -> pools_overlap a b = false.
+Proof. exact history_no_two_allocatable_overlap. Qed.
+Print Assumptions c39_history_no_two_allocatable_overlap.
+
+(* at any point of any history, the next reconcile keeps every in-service allocatable pool *)
+Theorem c39_history_incumbent_kept : forall tf hs blocks0 p,
+  Forall hop_wf hs ->
+  let s := run_history tf (mkState [] blocks0) hs in
+  In p (st_pools s) -> incumbent p = true ->
+  exists p', In p' (st_pools (reconcile_step tf s)) /\ p_name p' = p_name p
+             /\ allocatable p' = true /\ p_fin p' = true /\ p_deleting p' = false.
+Proof. exact history_incumbent_kept. Qed.
+Print Assumptions c39_history_incumbent_kept.
+
+(* at any point of any history, a terminating pool (not disabled, or repaired order) keeps an
+   overlapping non-allocatable pool non-allocatable through the next reconcile *)
+Theorem c39_history_terminating_masks : forall tf s T p p',
+  Inv s -> In T (st_pools s) -> In p (st_pools s) -> p_name p <> p_name T ->
+  p_deleting T = true -> (tf = true \/ p_disabled T = false) -> pools_overlap T p = true ->
+  allocatable p = false ->
+  In p' (st_pools (reconcile_step tf s)) -> p_name p' = p_name p -> allocatable p' = false.
+Proof. exact reachable_terminating_masks. Qed.
+Print Assumptions c39_history_terminating_masks.
+
+(* a delete request against an allocatable pool never completes, through any further history
+   (including disabling the pool, repeated delete requests, other pools coming and going), as
+   long as at every reconcile some block still lies inside the pool's CIDR *)
+Theorem c39_history_no_delete_with_blocks : forall tf s p hs,
+  Inv s -> In p (st_pools s) -> allocatable p = true -> p_deleting p = false ->
+  Forall hop_wf hs ->
+  let s1 := api_step s (OpDelete (p_name p)) in
+  blocks_held tf p s1 hs ->
+  exists q, In q (st_pools (run_history tf s1 hs))
+            /\ p_name q = p_name p /\ p_cidr q = p_cidr p /\ p_deleting q = true /\ p_fin q = true.
+Proof. exact history_no_delete_with_blocks. Qed.
+Print Assumptions c39_history_no_delete_with_blocks.
+
+(* ---- poolSortFunc: the sorted permutation is unique when names are distinct, so the model's
+   insertion sort and Go's slices.SortFunc (any correct sort) return the same list *)
+Theorem c39_sort_unique : forall l l', NoDup (map p_name l) ->
+  Permutation l l' -> StronglySorted ple l' -> l' = sort_pools l.
+Proof. exact sort_unique. Qed.
+Print Assumptions c39_sort_unique.
+
+(* ---- non-vacuity: a history in which every hypothesis above is met by a non-trivial state *)
+Open Scope N_scope.
+Definition ex_a := mkPool [97] 1 (Some (false, 167772160, 24%nat)) false false None false false.   (* 10.0.0.0/24 *)
+Definition ex_b := mkPool [98] 2 (Some (false, 167772160, 25%nat)) false false None false false.   (* 10.0.0.0/25 *)
+Definition ex_c := mkPool [99] 3 (Some (false, 167772416, 24%nat)) false false None false false.   (* 10.0.1.0/24 *)
+Definition ex_blk : rawcidr := Some (false, 167772224, 26%nat).                                     (* 10.0.0.64/26 *)
+Definition ex_hist : list hop :=
+  [HApi (OpCreate ex_a); HReconcile; HApi (OpBlockAdd ex_blk); HApi (OpCreate ex_b); HApi (OpCreate ex_c); HReconcile;
+   HApi (OpDelete [97]); HReconcile].
+
+Example c39_example_history :
+  Forall hop_wf ex_hist /\
+  (* a is terminating and held by its block, b is still masked, c is allocatable *)
+  map (fun p => (p_name p, p_deleting p, p_cond p, p_fin p)) (st_pools (run_history false (mkState [] []) ex_hist))
+  = [([99], false, Some (STrue, ROK), true);
+     ([97], true, Some (SFalse, RTerminating), true);
+     ([98], false, Some (SFalse, ROverlap), false)] /\
+  (* once the block is gone a disappears and b takes over *)
+  map (fun p => (p_name p, p_deleting p, p_cond p, p_fin p))
+      (st_pools (run_history false (mkState [] []) (ex_hist ++ [HApi (OpBlockDel ex_blk); HReconcile; HReconcile])))
+  = [([99], false, Some (STrue, ROK), true);
+     ([98], false, Some (STrue, ROK), true)].
+Proof.
+  split; [|split; vm_compute; reflexivity].
+  repeat constructor.
+Qed.
